@@ -237,6 +237,7 @@ type Failer interface {
 // file and stops the case through f.Fatalf (rapid then shrinks; the last saved
 // file is the minimal one).
 func (r *Recorder) Report(f Failer, kind string, c any, o Outcome) {
+	End()
 	if o.Known != "" {
 		findingsOnce.Do(loadFindings)
 		what := o.Known
@@ -466,7 +467,12 @@ func Replay(t *testing.T) {
 		t.Skipf("no replayer for kind %q in this package", doc.Kind)
 	}
 	r := Get(doc.Property)
-	if msg := fn(doc.Case); msg != "" {
+	if cp := crumbPath(); cp != "" {
+		_ = os.WriteFile(cp, b, 0o644)
+	}
+	msg := fn(doc.Case)
+	End()
+	if msg != "" {
 		r.mu.Lock()
 		r.violations = append(r.violations, violation{Kind: doc.Kind, Message: trunc(msg, 2000), Replay: p})
 		r.mu.Unlock()
@@ -520,4 +526,38 @@ func OpenFinding(property, sig string) (Finding, bool) {
 		}
 	}
 	return Finding{}, false
+}
+
+// ---- crash breadcrumb -----------------------------------------------------------
+//
+// A panic in a goroutine started by the code under test (provers, parallel
+// solvers) cannot be recovered: it kills the test binary before anything is
+// flushed. Begin leaves the case being evaluated in $VERIF_OUT.current (Report
+// removes it); when a process dies with a panic whose first non-runtime frame is
+// in gnark / gnark-crypto, the driver turns the breadcrumb into a replay file
+// and reports the crash as a violation of the case that was running.
+
+func crumbPath() string {
+	out := os.Getenv("VERIF_OUT")
+	if out == "" {
+		return ""
+	}
+	return out + ".current"
+}
+
+// Begin records that case c of the given kind is about to be evaluated.
+func (r *Recorder) Begin(kind string, c any) {
+	p := crumbPath()
+	if p == "" {
+		return
+	}
+	doc, _ := json.Marshal(map[string]any{"property": r.ID, "kind": kind, "case": json.RawMessage(canon(c))})
+	_ = os.WriteFile(p, doc, 0o644)
+}
+
+// End removes the breadcrumb (Report calls it).
+func End() {
+	if p := crumbPath(); p != "" {
+		_ = os.Remove(p)
+	}
 }
